@@ -126,7 +126,8 @@ HdrSets == { <<>>, <<H("X-Hdr", <<"h1">>)>>, HdrB, <<H("X-Hdr", <<"a, b", "c">>)
 TrlSets == { <<>>, <<H("X-Trl", <<"t1">>)>>, TrlB, <<H("X-Trl", <<"t1", "t2", "t3">>), H("X-Sig-Bin", <<"/+8">>)>> }
 GenC11Init ==
   \E p \in Protos, k \in Kinds, codec \in {"proto", "json"}, rh \in HdrSets \cup {HdrA}, sh \in HdrSets, st \in TrlSets,
-     o \in {OK, Err(9, "ascii", 0, MetaE, 0), Err(9, "ascii", 0, <<>>, 1), [Err(9, "ascii", 0, MetaE, 0) EXCEPT !.kind = "wrapped"]},
+     o \in {OK, Err(9, "ascii", 0, MetaE, 0), Err(9, "ascii", 0, <<>>, 1), [Err(9, "ascii", 0, MetaE, 0) EXCEPT !.kind = "wrapped"],
+            [Err(9, "ascii", 0, MetaE, 0) EXCEPT !.kind = "ctxwrap"]},
      nresp \in {0, 1, 2} :
     \E http \in HTTPs(k) :
       /\ (k \in {"unary", "client"} => nresp = 1 /\ o.after = 0)
